@@ -38,6 +38,11 @@ def r1_never_raises(ctx, sym):
             if isinstance(c, ast.Call):
                 if call_name(c) == 'ast.parse':
                     return EXCEPTION_DOWN
+                # any method of the analyser may fail on state the traversal left behind (locate() dereferences the
+                # current node's lineno); only the two recording calls are taken not to raise
+                if isinstance(c.func, ast.Attribute) and norm(c.func.value) == 'self' and \
+                        any(isinstance(a, ast.ExceptHandler) for a in ancestors(c)):
+                    return EXCEPTION_DOWN
                 if isinstance(c.func, ast.Attribute) and c.func.attr in ('process_ast', 'visit') and \
                         norm(c.func.value) == 'self':
                     return EXCEPTION_DOWN
@@ -266,8 +271,41 @@ def r5_determinism(ctx, sym):
     ctx.floor('R5', 'loops inspected', n, 50)
 
 
+def r5b_builtin_lookup_copies(ctx, sym):
+    ctx.rule('R5b', "get_builtin_name (decision table by abstract interpretation) hands out a copy of every entry of "
+                    "the process-lifetime BUILTIN_NAMES table, functions and constructors alike, and None for unknown "
+                    "names: a shared entry mutated by one analysis (list[int] parameterises the constructor) changes "
+                    "the next analysis")
+    mod = ctx.repo.module('pedal.types.builtin')
+    fn = mod.func('get_builtin_name')
+    ctx.analysed_function(mod, fn)
+
+    def entry(kind):
+        o = Obj(kind, kind=kind)
+        o.attrs['method:clone_mutably'] = lambda: ('COPY', kind)
+        o.attrs['method:clone'] = lambda: ('COPY', kind)
+        return o
+    table = {'len': entry('FunctionType'), 'list': entry('ListConstructor'), 'int': entry('IntConstructor'),
+             '__name__': entry('StrType')}
+    for name in list(table) + ['nope']:
+        fd = FD()
+        fd.resolver = lambda n: {'BUILTIN_NAMES': table, 'FunctionType': 'FunctionType'}[n]
+        fd.calls['isinstance'] = lambda o, t: isinstance(o, Obj) and o.attrs.get('kind') == t
+        try:
+            got = fd.call_function(fn, [name])
+        except (Raised, Inconclusive) as e:
+            raise AnalysisError("C18 R5b: get_builtin_name outside the decidable fragment: %s" % e)
+        want = ('COPY', table[name].attrs['kind']) if name in table else None
+        ctx.check(got == want, 'R5b', 'get_builtin_name[%s]' % name, mod, fn,
+                  "get_builtin_name(%r) returns %s instead of %s" % (
+                      name, 'the shared table entry itself' if isinstance(got, Obj) else repr(got), want),
+                  "names = list(); ...; scores: list[int] analysed twice in one process: the second analysis sees the "
+                  "constructor already parameterised and reports an extra issue")
+
+
 def run(ctx):
     sym = Symbols(ctx.repo)
+    r5b_builtin_lookup_copies(ctx, sym)
     r1_never_raises(ctx, sym)
     r2_idempotent(ctx, sym)
     r3_resolution(ctx, sym)
